@@ -21,6 +21,9 @@ SLOT = 5 * 10**6
 
 
 def gen_case(rng, enabled=True):
+    """Interactive: the scripted receiver answers every First Frame / block end at once (so that no N_Bs deadline is ever
+    missed by the peer), the clock moves between process() calls. Returns the recorded case (with impl lines)."""
+    from peers import PeerRun
     a, _ = rand_inst_pair(rng)
     tx_dl = rng.choice([8, 8, 16, 64])
     window = rng.choice([1.0, 0.5, 0.25, 0.125, 0.0625, 2.0])
@@ -31,7 +34,7 @@ def gen_case(rng, enabled=True):
         bitrate += 1
     assert limiter_exact(bitrate, window), (bitrate, window)
     p = {'tx_data_length': tx_dl, 'rate_limit_enable': enabled, 'rate_limit_max_bitrate': bitrate, 'rate_limit_window_size': window,
-         'stmin': 0, 'rx_flowcontrol_timeout': 10**6}
+         'stmin': 0, 'rx_flowcontrol_timeout': rng.choice([1000, 200, 1000, 5000])}
     if tx_dl > 8:
         p['can_fd'] = True
     if rng.random() < 0.4:
@@ -41,32 +44,36 @@ def gen_case(rng, enabled=True):
     inst = dict(a, params=p)
     rid, ext, pfx = reach(inst)
     plen = len(pfx)
+    tplen = 1 if inst['txa']['mode'].startswith(('Extended', 'Mixed')) else 0
     W = int(window * 10**9)
-    fc = lambda bs: [0, 'rx', rid, int(ext), hx(pfx + bytes([0x30, bs, 0]))]
-    ops = []
+    pr = PeerRun([inst], links={0: 0})
     payloads = []
     for _ in range(rng.randint(1, 5)):
-        n = rng.choice([1, 3, 6 - plen, 7 - plen, tx_dl - 2 - plen, tx_dl * 2, tx_dl * 5, 100])
-        n = max(1, n)
+        n = max(1, rng.choice([1, 3, 6 - plen, 7 - plen, tx_dl - 2 - plen, tx_dl * 2, tx_dl * 5, 100]))
         pay = bytes(rng.getrandbits(8) for _ in range(n))
         payloads.append(hx(pay))
-        ops.append([0, 'send', None, hx(pay)])
+        pr.send(0, hx(pay))
     bs = rng.choice([0, 0, 1, 3])
     steps = [SLOT // 7, SLOT - 1, SLOT + 1, W // 3, W - SLOT, W + 1, 3 * W]
-    for _ in range(rng.randint(30, 120) if enabled else 12):
-        ops.append([0, 'proc', 1, 1])
-        if rng.random() < 0.5:
-            ops.append(fc(bs))
-        if rng.random() < 0.7:
-            ops.append([0, 'tick', rng.choice(steps) if enabled else rng.choice([0, 1, 1000])])
-    mark = len(ops)
-    if enabled:
-        for _ in range(60):
-            ops += [[0, 'tick', W + 1], fc(0), [0, 'proc', 1, 1], [0, 'proc', 1, 1]]
-    else:
-        ops += [fc(0), [0, 'proc', 1, 1], fc(0), [0, 'proc', 1, 1]] * 6
-    return {'insts': [inst], 'ops': ops, 'nops': len(ops), 'payloads': payloads, 'W': W, 'B': bitrate * window, 'tx_dl': tx_dl,
-            'enabled': enabled, 'mark': mark}
+    def waiting(line):
+        st = split_line(line)[1]
+        return 'tx=-' in st and 'trans=1' in st
+    for it in range(3000):
+        line = pr.proc(0)
+        guard = 0
+        while waiting(line) and guard < 50:
+            # the sender waits for a flow control: the receiver answers at once (no deadline is ever missed by the peer)
+            guard += 1
+            pr.op(0, 'rx', rid, int(ext), hx(pfx + bytes([0x30, bs, 0])))
+            line = pr.proc(0)
+        if not pr.impl[0].layer.transmitting():
+            break
+        pr.tick_all(rng.choice(steps) if enabled else rng.choice([0, 1, 1000]))
+    pr.close()
+    case = pr.case
+    case.update({'nops': len(case['ops']), 'payloads': payloads, 'W': W, 'B': bitrate * window, 'tx_dl': tx_dl, 'enabled': enabled,
+                 'impl_lines': pr.lines})
+    return case
 
 
 def oracle(case, lines, insts):
@@ -119,7 +126,7 @@ def oracle(case, lines, insts):
         if first_tx:
             fails.append(('C15:held-while-disabled', 'is_tx_throttled() observed with rate_limit_enable=False at op %d' % first_tx[0]))
     if 'trans=1' in lines[-1]:
-        fails.append(('C15:transfer-stalled', 'still transmitting after 60 further windows: %s' % split_line(lines[-1])[1]))
+        fails.append(('C15:transfer-stalled', 'still transmitting after 3000 scheduler steps: %s' % split_line(lines[-1])[1]))
     return fails
 
 
